@@ -283,10 +283,15 @@ Proof.
 Qed.
 
 (* ---- a component with alternations, top level ---- *)
+Lemma run_comma o ts cs pv cu :
+  parse_all o (st ts (44%N :: cs) pv cu) = parse_all o (st (ts ++ [TLit 44]) cs cu (Some 44%N)).
+Proof. apply (parse_all_step o _ 44%N cs); reflexivity. Qed.
+
 Lemma aitem_head_no_star i r : aitem_ok_with branch_ok i = true -> i <> AIt IStar -> starts_no_star (render_aitem i ++ r).
 Proof.
-  destruct i as [i|bs]; intros H Hn.
+  destruct i as [i| |bs]; intros H Hn.
   - cbn [render_aitem]. apply item_head_no_star; [exact H|]. intros ->. now apply Hn.
+  - unfold starts_no_star. cbn. discriminate.
   - unfold starts_no_star. cbn. discriminate.
 Qed.
 
@@ -300,7 +305,7 @@ Proof.
   - cbn. rewrite app_nil_r. eauto.
   - cbn [forallb] in Hok. apply andb_true_iff in Hok as [Hi Hok].
     assert (Hadj' : no_adjacent_astar its = true).
-    { destruct i as [[]|]; try exact Hadj; destruct its as [|[[]|]]; try exact Hadj; discriminate. }
+    { destruct i as [[]| |]; try exact Hadj; destruct its as [|[[]| |]]; try exact Hadj; discriminate. }
     cbn [render_acomp flat_map acomp_toks map parser_order]. fold (render_acomp its). fold (acomp_toks its).
     fold (parser_order (acomp_toks its)). rewrite <- app_assoc.
     assert (Hnext : i = AIt IStar -> starts_no_star (render_acomp its ++ tl)).
@@ -312,13 +317,14 @@ Proof.
                parse_all o (st (ts ++ tok_parser_order (aitem_tok i) :: parser_order (acomp_toks its)) tl pv' cu')).
     { intros pv1 cu1. destruct (IH (ts ++ [tok_parser_order (aitem_tok i)]) tl pv1 cu1 Hb Hok Hadj' Hrest) as (pv' & cu' & E).
       rewrite <- app_assoc in E. eauto. }
-    destruct i as [[c|c| | |ms]|bs].
+    destruct i as [[c|c| | |ms]| |bs].
     + cbn [render_aitem render_item app aitem_tok item_tok tok_parser_order]. rewrite run_plain by (left; exact Hi). apply Hgo.
     + cbn [render_aitem render_item app aitem_tok item_tok tok_parser_order]. rewrite run_esc by assumption. apply Hgo.
     + cbn [render_aitem render_item app aitem_tok item_tok tok_parser_order]. rewrite run_any. apply Hgo.
     + cbn [render_aitem render_item app aitem_tok item_tok tok_parser_order]. rewrite run_star by (now apply Hnext). apply Hgo.
     + cbn [render_aitem render_item app aitem_tok item_tok tok_parser_order]. rewrite <- app_assoc. cbn [app].
       rewrite run_class by assumption. apply Hgo.
+    + cbn [render_aitem app aitem_tok tok_parser_order]. rewrite run_comma. apply Hgo.
     + destruct (run_alt o bs ts (render_acomp its ++ tl) pv cu Hb Hi) as (pv1 & cu1 & ->). apply Hgo.
 Qed.
 
@@ -411,3 +417,89 @@ Proof.
       rewrite parser_order_app. apply Hfin.
     + discriminate.
 Qed.
+
+(* ---- the alternate-free syntax is the sub-syntax without AComma/AAlt: same text, same tokens, same verdict ---- *)
+Lemma inj_render_comp its : render_acomp (map AIt its) = render_comp its.
+Proof. induction its as [|i r IH]; [reflexivity|]. cbn [map render_acomp flat_map render_aitem]. fold (render_acomp (map AIt r)). rewrite IH. reflexivity. Qed.
+
+Lemma inj_render_piece p : render_apiece (piece_inj p) = render_piece p.
+Proof. destruct p; [apply inj_render_comp|reflexivity]. Qed.
+
+Lemma inj_render ps : render_aglob (map piece_inj ps) = render_glob ps.
+Proof.
+  induction ps as [|p r IH]; [reflexivity|]. destruct r as [|q r'].
+  - cbn [map render_aglob render_glob]. apply inj_render_piece.
+  - change (render_aglob (map piece_inj (p :: q :: r'))) with
+      (render_apiece (piece_inj p) ++ 47%N :: render_aglob (map piece_inj (q :: r'))).
+    rewrite IH, inj_render_piece. reflexivity.
+Qed.
+
+Lemma inj_comp_toks its : acomp_toks (map AIt its) = comp_toks its.
+Proof. unfold acomp_toks, comp_toks. rewrite map_map. reflexivity. Qed.
+
+Lemma inj_after n : forall ps, length ps <= n -> aafter_piece (map piece_inj ps) = after_piece ps.
+Proof.
+  induction n as [|n IH]; intros ps Hl; [destruct ps; [reflexivity|cbn in Hl; lia]|].
+  destruct ps as [|[its|] r]; [reflexivity| |]; cbn [length] in Hl.
+  - cbn [map piece_inj aafter_piece after_piece]. rewrite inj_comp_toks, IH by lia. reflexivity.
+  - destruct r as [|[its|] r']; [reflexivity| |reflexivity]. cbn [length] in Hl.
+    cbn [map piece_inj aafter_piece after_piece]. rewrite inj_comp_toks, IH by lia. reflexivity.
+Qed.
+
+Lemma inj_tokens ps : aglob_tokens (map piece_inj ps) = glob_tokens ps.
+Proof.
+  destruct ps as [|[its|] r]; [reflexivity| |].
+  - cbn [map piece_inj aglob_tokens glob_tokens]. now rewrite inj_comp_toks, (inj_after (length r)).
+  - destruct r as [|[its|] r']; [reflexivity| |reflexivity].
+    cbn [map piece_inj aglob_tokens glob_tokens]. now rewrite inj_comp_toks, (inj_after (length r')).
+Qed.
+
+Lemma forallb_map_c {A B} (f : A -> B) (g : B -> bool) l : forallb g (map f l) = forallb (fun x => g (f x)) l.
+Proof. induction l as [|x r IH]; [reflexivity|]. cbn [map forallb]. now rewrite IH. Qed.
+Lemma forallb_ext_c {A} (f g : A -> bool) l : (forall x, f x = g x) -> forallb f l = forallb g l.
+Proof. intro H. induction l as [|x r IH]; [reflexivity|]. cbn [forallb]. now rewrite H, IH. Qed.
+
+Lemma inj_ok_comp its :
+  forallb (aitem_ok_with branch_ok) (map AIt its) = forallb item_ok its /\
+  no_adjacent_astar (map AIt its) = no_adjacent_star its.
+Proof.
+  split.
+  - rewrite forallb_map_c. reflexivity.
+  - induction its as [|i r IH]; [reflexivity|]. destruct i; cbn [map no_adjacent_astar no_adjacent_star]; try exact IH.
+    destruct r as [|[] r']; cbn [map] in *; try exact IH; reflexivity.
+Qed.
+
+Lemma inj_ok ps : aglob_ok (map piece_inj ps) = glob_ok ps.
+Proof.
+  unfold aglob_ok, aglob_ok_with, glob_ok. f_equal; [f_equal|destruct ps; reflexivity].
+  - rewrite forallb_map_c. apply forallb_ext_c. intros [its|]; [|reflexivity].
+    cbn [piece_inj apiece_ok_with piece_ok]. destruct (inj_ok_comp its) as [-> ->]. destruct its; reflexivity.
+  - induction ps as [|p r IH]; [reflexivity|]. destruct p; cbn [map piece_inj no_adjacent_dstar_a no_adjacent_dstar_p]; try exact IH.
+    destruct r as [|[] r']; cbn [map piece_inj] in *; try exact IH; reflexivity.
+Qed.
+
+Lemma parser_order_alt_free ps : parser_order (glob_tokens ps) = glob_tokens ps.
+Proof.
+  assert (Hc : forall its, parser_order (comp_toks its) = comp_toks its).
+  { intro its. unfold parser_order, comp_toks. rewrite map_map. apply map_ext. intros []; reflexivity. }
+  assert (Ha : forall n ps, length ps <= n -> parser_order (after_piece ps) = after_piece ps).
+  { induction n as [|n IH]; intros qs Hl; [destruct qs; [reflexivity|cbn in Hl; lia]|].
+    destruct qs as [|[its|] r]; [reflexivity| |]; cbn [length] in Hl.
+    - cbn [after_piece]. change (parser_order (TLit 47 :: ?x)) with (TLit 47 :: parser_order x).
+      cbn [parser_order map tok_parser_order]. fold (parser_order (comp_toks its ++ after_piece r)).
+      rewrite parser_order_app, Hc, IH by lia. reflexivity.
+    - destruct r as [|[its|] r']; [reflexivity| |reflexivity]. cbn [length] in Hl. cbn [after_piece].
+      cbn [parser_order map tok_parser_order]. fold (parser_order (comp_toks its ++ after_piece r')).
+      rewrite parser_order_app, Hc, IH by lia. reflexivity. }
+  destruct ps as [|[its|] r]; [reflexivity| |].
+  - cbn [glob_tokens]. rewrite parser_order_app, Hc, (Ha (length r)) by lia. reflexivity.
+  - destruct r as [|[its|] r']; [reflexivity| |reflexivity]. cbn [glob_tokens].
+    cbn [parser_order map tok_parser_order]. fold (parser_order (comp_toks its ++ after_piece r')).
+    rewrite parser_order_app, Hc, (Ha (length r')) by lia. reflexivity.
+Qed.
+
+Theorem alt_syntax_conservative_proof ps :
+  render_aglob (map piece_inj ps) = render_glob ps /\
+  parser_order (aglob_tokens (map piece_inj ps)) = glob_tokens ps /\
+  aglob_ok (map piece_inj ps) = glob_ok ps.
+Proof. rewrite inj_tokens, parser_order_alt_free. auto using inj_render, inj_ok. Qed.
